@@ -902,19 +902,27 @@ class Explorer:
                 'path_condition': [str(z3.simplify(c))[:200] for c in ctx.pc[:12]],
                 'n_constraints': len(ctx.pc)})
 
-    def run(self, fn):
-        """explore all feasible paths of fn(ctx)."""
+    def run(self, fn, initial_stack=None, bfs_until=None):
+        """explore all feasible paths of fn(ctx).  initial_stack: decision
+        prefixes to start from (a shard of a frontier).  bfs_until: explore
+        breadth-first until the frontier holds that many prefixes, then stop
+        and leave them in self.frontier (splitter mode)."""
         global CUR
-        stack = [[]]
+        stack = [list(p) for p in initial_stack] if initial_stack is not None else [[]]
+        self.frontier = None
         t0 = time.time()
         while stack:
+            if bfs_until is not None and len(stack) >= bfs_until:
+                self.frontier = stack
+                self.exhausted = False
+                return self
             if self.stats.paths >= self.max_paths:
                 self.stats.reasons.append('path budget (%d) exhausted' % self.max_paths)
                 break
             if self.wall_s is not None and time.time() - t0 > self.wall_s:
                 self.stats.reasons.append('wall budget (%.0fs) exhausted' % self.wall_s)
                 break
-            prefix = stack.pop()
+            prefix = stack.pop(0) if bfs_until is not None else stack.pop()
             ctx = Ctx(self, prefix)
             CUR = ctx
             outcome = 'ok'
